@@ -35,6 +35,13 @@ def run(rep, tier):
     f = prog.func(MESH, "followPerpendicular")
     mod = f.module
     rep.analysed_add("functions", [f.site()])
+    # the follower gets f_R, f_Z from the map that runs it: in the serial arm and in a worker
+    # process they must be the equilibrium's own functions (rule instances of C13.R2)
+    rep.rule("R0", "premise: the parallel map hands the equilibrium's own psi, f_R, f_Z to the mapped function in both arms (C13.R2)")
+    from ..report import Premise
+    from . import c13
+    pm = prog.module(c13.PM)
+    c13.r2(Premise(rep, "R0", "C13"), pm, pm.funcs.get("ParallelMap.__call__"), pm.funcs.get("ParallelMap.worker_run"), pm.funcs.get("ParallelMap.__init__"))
     # R1a: the ODE right-hand side
     inner = [n for n in ast.walk(f.node) if isinstance(n, ast.FunctionDef) and n.name == "f"]
     ok = False
